@@ -47,7 +47,7 @@ def bias_and_gain_invariant_error(I, D, mask):  # NOQA
 
     alphaI = alpha*I
 
-    beta = (D-alphaI)/N
+    beta = (D-alphaI).sum()/N
 
     R = 1/((D*D).sum())
     raw_err = (alphaI + beta) - D
